@@ -150,6 +150,10 @@ class Spec:
             return C(None)
         if isinstance(expr, ast.Constant):
             return C(expr.value)
+        if isinstance(expr, ast.JoinedStr):
+            if any(isinstance(v, ast.Constant) and v.value for v in expr.values):
+                return C("<fstring>")  # non-empty literal part: truthy
+            return UNKNOWN
         if isinstance(expr, ast.Name):
             return st.get(f"{depth}:{expr.id}")
         ch = attr_chain(expr)
